@@ -118,6 +118,7 @@ def parseNear (t : Option (List Char)) (s : String) : Option NearMiss :=
   | ["ext", "c"] => some (.ext ['x'])
   | ["ext", "sp"] => some (.ext " and then some".toList)
   | ["ext", "ws"] => some (.ext [' ', ' '])
+  | ["ext", "x256"] => some (.ext (List.replicate 256 'x'))
   | ["chg", "0"] => some (.chg 0 (other 0))
   | ["chg", "mid"] => some (.chg (len / 2) (other (len / 2)))
   | ["chg", "last"] => some (.chg (len - 1) (other (len - 1)))
